@@ -127,12 +127,23 @@ func (c *Cond) Broadcast() {
 // Pool is a controlled sync.Pool: Get returns the most recently put object by default, or a
 // new one (what a GC cycle or another P produces) as an environment deviation.
 type Pool struct {
-	New   func() any
-	items []any
+	New        func() any
+	items      []any
+	registered bool
+}
+
+var allPools []*Pool
+
+func (p *Pool) reg() {
+	if !p.registered {
+		p.registered = true
+		allPools = append(allPools, p)
+	}
 }
 
 func (p *Pool) Get() any {
 	sched.Point("Pool.Get")
+	p.reg()
 	if n := len(p.items); n > 0 {
 		if sched.Env(2, "Pool.Get returns a pooled object or a fresh one") == 0 {
 			x := p.items[n-1]
@@ -148,6 +159,7 @@ func (p *Pool) Get() any {
 
 func (p *Pool) Put(x any) {
 	sched.Point("Pool.Put")
+	p.reg()
 	if x == nil {
 		return
 	}
@@ -165,6 +177,11 @@ var allMaps []*Map
 func ResetAllMaps() {
 	for _, m := range allMaps {
 		m.m = map[any]any{}
+	}
+	// process-global pools (net/packet's bufPool, zlibPool) must start every execution empty,
+	// otherwise the number of choice points would depend on the previous execution
+	for _, p := range allPools {
+		p.items = nil
 	}
 }
 
